@@ -13,7 +13,7 @@ Side condition of the full-strength theorems (`sent_frames_faithful`, `read_is_p
 the statement is false of the code (`boundary_after_reset_witness`: this API misuse sends bytes of a later
 Write at the offset of bytes dropped by the reset). They cover classic RESET_STREAM and RESET_STREAM_AT
 (CancelWrite with a reliable offset) alike; the FIN/EOF clause holds there since the two fixes
-a7958da (no FIN on new data of a stream that is being reset) and the truncation fix (a frame cut to the
+a7958da (no FIN on new data of a stream that is being reset) and f4bf60c (a frame cut to the
 reliable size loses its FIN) — findings C01-fin-after-reset-at / C01-fin-on-truncated-retransmission.
 The `_partial` theorems are the same statements under `Classic` (peer without RESET_STREAM_AT, or no
 SetReliableBoundary at all), where a boundary call after a reset is harmless; `no_byte_forgotten` is
